@@ -1133,7 +1133,16 @@ func (l *Ledger) Truncate(utxovmLastID []byte) error {
 			return err
 		}
 		// 更新分支高度信息
-		err = l.updateBranchInfo(block.Blockid, deletedBlockid, block.Height, batchWrite)
+		// the highest surviving ancestor of the removed blocks becomes the tip of this branch
+		// (it is the truncate target itself unless the branch forked off below the target)
+		survivor := block
+		for cur, ferr := l.queryBlock(deletedBlockid, false); ferr == nil; cur, ferr = l.queryBlock(cur.PreHash, false) {
+			if cur.Height <= block.Height {
+				survivor = cur
+				break
+			}
+		}
+		err = l.updateBranchInfo(survivor.Blockid, deletedBlockid, survivor.Height, batchWrite)
 		if err != nil {
 			l.xlog.Warn("truncate failed when calling updateBranchInfo", "err", err)
 			return err
